@@ -69,3 +69,36 @@ func VerifC04_Vegas_Step() {
 	verif.Assert("vegas-int-le-max", e <= hi)
 	verif.Reach("end")
 }
+
+// VerifC04_Vegas_CustomFunctions: Vegas built with CALLER-SUPPLIED alpha / beta / threshold /
+// increase / decrease functions that return arbitrary finite values (a decrease function may return
+// something below 1 or negative, an increase function something huge): the bounds of the estimate
+// are the limiter's own clamp, not a property of the default functions - one OnSample keeps the
+// estimate in [1, max(maxLimit, initial)].
+//
+//verif:harness property=C04 theory=real tier=quick timeout=120
+func VerifC04_Vegas_CustomFunctions() {
+	verifQuickSmooth = 1
+	l, hi := verifVegasState(false)
+	s := l.smoothing
+	verif.Assume((1-s)+s >= 1)
+	a, b, th := verif.Int("alpha"), verif.Int("beta"), verif.Int("threshold")
+	verif.Assume(a >= 0 && a < 1<<31 && b >= 0 && b < 1<<31 && th >= 0 && th < 1<<31)
+	inc, dec := verif.Float("increase"), verif.Float("decrease")
+	verif.Assume(inc >= -1e18 && inc <= 1e18 && dec >= -1e18 && dec <= 1e18)
+	l.alphaFunc = func(int) int { return a }
+	l.betaFunc = func(int) int { return b }
+	l.thresholdFunc = func(int) int { return th }
+	l.increaseFunc = func(float64) float64 { return inc }
+	l.decreaseFunc = func(float64) float64 { return dec }
+	rtt := verif.Int64("rtt")
+	inflight := verif.Int("inflight")
+	verif.Assume(rtt >= 0 && rtt <= 1<<62 && inflight >= 0 && inflight < 1<<31)
+	l.OnSample(0, rtt, inflight, verif.Bool("drop"))
+	after := l.estimatedLimit
+	verif.Assert("vegas-custom-est-ge-1", after >= 1)
+	verif.Assert("vegas-custom-est-le-max", after <= float64(hi)*relax)
+	e := l.EstimatedLimit()
+	verif.Assert("vegas-custom-int-in-range", e >= 1 && e <= hi)
+	verif.Reach("end")
+}
